@@ -56,66 +56,302 @@ def find_apps(dom, exprs):
     return list(apps.values())
 
 
-def inst_def(d, actual_params):
+BOUNDS = [z3.Int("seq!bound%d" % k) for k in range(8)]
+BOUND = BOUNDS[0]
+
+
+def inst_def(d, actual_params, level=0):
+    """the defining sequence of an application, as a term in the bound index BOUNDS[level]
+    (capture-avoiding: the probe variable is renamed before the parameters are substituted; an
+    application found inside a level-L definition is instantiated at level L+1)"""
+    b = BOUNDS[level]
+    re = z3.substitute(d["re"], (d["j"], b))
+    im = z3.substitute(d["im"], (d["j"], b))
     pairs = list(zip(d["params"], actual_params))
-    re, im = d["re"], d["im"]
     if pairs:
         re = z3.substitute(re, *pairs)
         im = z3.substitute(im, *pairs)
     return re, im
 
 
-def congruence_lemmas(dom, hyps, exprs, max_rounds=3):
+def _probe_differs(ra, ima, rb, imb, b):
+    """cheap filter: the two sequences visibly differ at index 0 or 1 (both sides reduce to different
+    atoms).  Only used to skip hopeless solver calls; skipping can lose a lemma, never add a wrong one."""
+    for k in (0, 1):
+        a = z3.simplify(z3.substitute(ra, (b, z3.IntVal(k))))
+        c = z3.simplify(z3.substitute(rb, (b, z3.IntVal(k))))
+        if a.eq(c):
+            continue
+        if _atomic(a) and _atomic(c):
+            return True
+    return False
+
+
+def _atomic(e):
+    if z3.is_rational_value(e) or z3.is_int_value(e):
+        return True
+    if z3.is_app(e) and e.decl().kind() == z3.Z3_OP_UNINTERPRETED:
+        return all(_atomic(c) for c in e.children())
+    return False
+
+
+PERIODS = {}
+
+
+def period_int(den):
+    """an Int constant equal to the (real-sorted) grid size `den`, one per distinct term"""
+    k = str(den)
+    if k not in PERIODS:
+        PERIODS[k] = (z3.Int("per!n%d" % len(PERIODS)), den)
+    return PERIODS[k][0]
+
+
+def occurrence_condition(dom, term, ident, args):
+    """condition (over the if-then-else structure of `term`) under which an application of `ident`
+    with exactly these arguments is reached"""
+    names = set(d.name() for d in dom.defs[ident]["decls"])
+    memo = {}
+
+    def is_target(x):
+        if not z3.is_app(x) or x.decl().name() not in names:
+            return False
+        ch = x.children()
+        return len(ch) == len(args) and all(c.eq(a) for c, a in zip(ch, args))
+
+    def walk(x):
+        i = x.get_id()
+        if i in memo:
+            return memo[i]
+        if is_target(x):
+            r = z3.BoolVal(True)
+        elif z3.is_app_of(x, z3.Z3_OP_ITE):
+            c, t, e = x.children()
+            parts = []
+            wc, wt, we = walk(c), walk(t), walk(e)
+            if wc is not None:
+                parts.append(wc)
+            if wt is not None:
+                parts.append(z3.And(c, wt) if not z3.is_true(wt) else c)
+            if we is not None:
+                parts.append(z3.And(z3.Not(c), we) if not z3.is_true(we) else z3.Not(c))
+            r = z3.Or(parts) if len(parts) > 1 else (parts[0] if parts else None)
+        else:
+            parts = [w for w in (walk(c) for c in x.children()) if w is not None]
+            if not parts:
+                r = None
+            elif any(z3.is_true(p) for p in parts):
+                r = z3.BoolVal(True)
+            else:
+                r = z3.Or(parts) if len(parts) > 1 else parts[0]
+        memo[i] = r
+        return r
+    return walk(term)
+
+
+def leveled_apps(dom, exprs, side_hyps=None):
+    """applications in the formulas (level 0) and, recursively, inside their definitions (level+1).
+    For a two-sided DTFT the definition shifted by one period is explored too (its premises are
+    needed by the periodisation lemma)."""
+    out = []
+    seen = set()
+    frontier = [(a, 0) for a in find_apps(dom, exprs)]
+    while frontier:
+        (ident, a, p), lvl = frontier.pop(0)
+        key = (ident, tuple(str(t) for t in list(a) + list(p)), lvl)
+        if key in seen or lvl >= len(BOUNDS) - 1:
+            continue
+        seen.add(key)
+        out.append(((ident, a, p), lvl))
+        OCC[key] = z3.BoolVal(True) if lvl == 0 else _occ(dom, CTX.get(key, []), ident, list(a) + list(p))
+        d = dom.defs[ident]
+        re, im = inst_def(d, p, lvl)
+        terms = [re, im]
+        if d["kind"] == "dtftz" and len(a) == 2:
+            nint = period_int(a[1])
+            if side_hyps is not None:
+                h = z3.ToReal(nint) == a[1]
+                if not any(h.eq(x) for x in side_hyps):
+                    side_hyps.append(h)
+            b = BOUNDS[lvl]
+            terms += [z3.substitute(re, (b, b - nint)), z3.substitute(im, (b, b - nint))]
+        for sub in find_apps(dom, terms):
+            frontier.append((sub, lvl + 1))
+            k2 = (sub[0], tuple(str(t) for t in list(sub[1]) + list(sub[2])), lvl + 1)
+            CTX.setdefault(k2, [])
+            CTX[k2] += terms
+    return out
+
+
+OCC = {}
+CTX = {}
+
+
+def _occ(dom, terms, ident, args):
+    parts = []
+    for t in terms:
+        w = occurrence_condition(dom, t, ident, args)
+        if w is None:
+            continue
+        if z3.is_true(w):
+            return z3.BoolVal(True)
+        parts.append(w)
+    if not parts:
+        return z3.BoolVal(True)
+    return z3.Or(parts) if len(parts) > 1 else parts[0]
+
+
+def app_key(app, lvl):
+    ident, a, p = app
+    return (ident, tuple(str(t) for t in list(a) + list(p)), lvl)
+
+
+def _mentions_bound(terms):
+    used = set()
+    stack = list(terms)
+    seen = set()
+    ids = {b.get_id(): b for b in BOUNDS}
+    while stack:
+        x = stack.pop()
+        i = x.get_id()
+        if i in seen:
+            continue
+        seen.add(i)
+        if i in ids:
+            used.add(i)
+        stack.extend(x.children())
+    return [ids[i] for i in used]
+
+
+def congruence_lemmas(dom, hyps, exprs, max_rounds=6):
     """lemmas `args equal => applications equal` for pairs of applications whose defining
-    sequences are provably pointwise equal under the hypotheses"""
+    sequences are provably pointwise equal under the hypotheses (+ lemmas found so far).
+    Returns (lemmas, rewrites): when the arguments are provably equal too, the second application is
+    rewritten into the first one (congruence closure done by the generator).  Lemmas about
+    applications nested in a definition mention that definition's bound index; they hold for every
+    value of it (no hypothesis constrains it) and are added universally quantified."""
     lemmas = []
-    known = set()
+    rewrites = []
+    proven = set()
+    failed = {}
     exprs = list(exprs)
+    hyps = list(hyps)
+    OCC.clear()
+    CTX.clear()
     for _ in range(max_rounds):
-        apps = find_apps(dom, exprs + lemmas)
-        # definitions can contain further applications
-        extra = []
-        for (ident, a, p) in apps:
-            re, im = inst_def(dom.defs[ident], p)
-            extra += [re, im]
-        apps = find_apps(dom, exprs + lemmas + extra)
+        apps = leveled_apps(dom, exprs, side_hyps=hyps)
+        # deepest first: lemmas about nested sums are needed to compare the enclosing sequences
+        apps.sort(key=lambda t: -t[1])
         new = False
         for x in range(len(apps)):
             for y in range(x + 1, len(apps)):
-                ia, aa, pa = apps[x]
-                ib, ab, pb = apps[y]
+                (ia, aa, pa), la = apps[x]
+                (ib, ab, pb), lb = apps[y]
+                if la != lb:
+                    continue
                 da, db = dom.defs[ia], dom.defs[ib]
+                key = (ia, tuple(str(t) for t in list(aa) + list(pa)), ib, tuple(str(t) for t in list(ab) + list(pb)), la)
+                if key in proven or failed.get(key) == len(lemmas):
+                    continue
+                if {da["kind"], db["kind"]} == {"dtft", "dtftz"}:
+                    lem = periodization_lemma(dom, list(hyps) + lemmas, apps[x][0], apps[y][0], la)
+                    if lem is None:
+                        failed[key] = len(lemmas)
+                    else:
+                        proven.add(key)
+                        lemmas.append(lem[0])
+                        rewrites += lem[1]
+                        new = True
+                    continue
                 if da["kind"] != db["kind"] or da["nargs"] != db["nargs"]:
                     continue
-                key = (ia, tuple(t.get_id() for t in aa + pa), ib, tuple(t.get_id() for t in ab + pb))
-                if key in known:
-                    continue
-                known.add(key)
-                ra, ima = inst_def(da, pa)
-                rb, imb = inst_def(db, pb)
-                # align the probe variables
-                if not da["j"].eq(db["j"]):
-                    rb = z3.substitute(rb, (db["j"], da["j"]))
-                    imb = z3.substitute(imb, (db["j"], da["j"]))
+                ra, ima = inst_def(da, pa, la)
+                rb, imb = inst_def(db, pb, lb)
+                occ = z3.And(OCC.get(app_key(apps[x][0], la), z3.BoolVal(True)), OCC.get(app_key(apps[y][0], lb), z3.BoolVal(True)))
                 if ra.eq(rb) and ima.eq(imb):
                     same = True
+                elif _probe_differs(ra, ima, rb, imb, BOUNDS[la]):
+                    same = False
                 else:
                     neq = z3.Or(ra != rb, ima != imb)
-                    same = dom.quick_unsat(list(hyps) + lemmas + [neq], timeout_ms=4000)
+                    same = dom.quick_unsat(list(hyps) + lemmas + [occ, neq], timeout_ms=2500)
                 if not same:
+                    failed[key] = len(lemmas)
                     continue
-                args_eq = z3.And([x1 == y1 for x1, y1 in zip(aa, ab)]) if aa else z3.BoolVal(True)
+                proven.add(key)
+                if da["kind"] == "dtft" and len(aa) == 2 and not aa[1].eq(ab[1]):
+                    # same frequency on two grids: num1/den1 == num2/den2 (dens > 0)
+                    args_eq = z3.And(aa[0] * ab[1] == ab[0] * aa[1], aa[1] > 0, ab[1] > 0)
+                elif da["kind"] == "dtftz" and len(aa) == 2 and not aa[1].eq(ab[1]):
+                    args_eq = z3.And(aa[0] * ab[1] == ab[0] * aa[1], aa[1] > 0, ab[1] > 0)
+                else:
+                    args_eq = z3.And([x1 == y1 for x1, y1 in zip(aa, ab)]) if aa else z3.BoolVal(True)
                 concl = []
+                pairs = []
                 ncomp = max(len(da["decls"]), len(db["decls"]))
                 for r in range(ncomp):
                     ta = da["decls"][r](*(list(aa) + list(pa))) if r < len(da["decls"]) else z3.RealVal(0)
                     tb = db["decls"][r](*(list(ab) + list(pb))) if r < len(db["decls"]) else z3.RealVal(0)
                     concl.append(ta == tb)
-                lemmas.append(z3.Implies(args_eq, z3.And(concl)))
+                    pairs.append((tb, ta))
+                lemma = z3.Implies(z3.And(args_eq, occ), z3.And(concl))
+                bvars = _mentions_bound(list(aa) + list(pa) + list(ab) + list(pb))
+                if bvars:
+                    # the lemma mentions the bound index of the enclosing definition as a free constant;
+                    # it was proved without any assumption on it, so the ground instance is a valid fact
+                    lemmas.append(lemma)
+                else:
+                    lemmas.append(lemma)
+                    if not aa or all(x1.eq(y1) for x1, y1 in zip(aa, ab)) or \
+                            dom.quick_unsat(list(hyps) + lemmas + [z3.Not(args_eq)], timeout_ms=2500):
+                        rewrites += [(tb, ta) for (tb, ta) in pairs if not z3.is_rational_value(tb)]
                 new = True
         if not new:
             break
-    return lemmas
+    return lemmas, rewrites
+
+
+def periodization_lemma(dom, hyps, app1, app2, level=0):
+    """A-DFT (periodisation): for integers k, n > 0 and a sequence t supported in (-n, n),
+         sum_{j in Z} t[j] e^{-2 pi i (k/n) j}  =  DFT_n(s)[k]   where  s[r] = t[r] + t[r-n], 0 <= r < n.
+    The identity itself is assumed (textbook); its premises are proved here for the two applications:
+    same (num, den), den > 0, support of t, support of s, and s = periodised t."""
+    (i1, a1, p1), (i2, a2, p2) = app1, app2
+    d1, d2 = dom.defs[i1], dom.defs[i2]
+    if d1["kind"] == "dtftz":
+        (i1, a1, p1, d1), (i2, a2, p2, d2) = (i2, a2, p2, d2), (i1, a1, p1, d1)
+    # now 1 = dtft (one-sided, s), 2 = dtftz (two-sided, t)
+    sre, sim = inst_def(d1, p1, level)
+    tre, tim = inst_def(d2, p2, level)
+    num1, den1 = a1
+    num2, den2 = a2
+    if not (den1.eq(den2)):
+        return None
+    n = den1
+    nint = period_int(n)
+    j = BOUNDS[level]
+    base = list(hyps) + [z3.ToReal(nint) == n]
+    shift = lambda e: z3.substitute(e, (j, j - nint))
+    bad = z3.Or(
+        n <= 0,
+        z3.And(z3.Or(j >= nint, j <= -nint), z3.Or(tre != 0, tim != 0)),                    # support of t
+        z3.And(z3.Or(j < 0, j >= nint), z3.Or(sre != 0, sim != 0)),                         # support of s
+        z3.And(j >= 0, j < nint, z3.Or(sre != tre + shift(tre), sim != tim + shift(tim))),  # s = periodised t
+    )
+    if not dom.quick_unsat(base + [bad], timeout_ms=4000):
+        return None
+    concl = []
+    pairs = []
+    for r in range(2):
+        ta = d1["decls"][r](*(list(a1) + list(p1))) if r < len(d1["decls"]) else z3.RealVal(0)
+        tb = d2["decls"][r](*(list(a2) + list(p2))) if r < len(d2["decls"]) else z3.RealVal(0)
+        concl.append(ta == tb)
+        pairs.append((tb, ta))
+    args_eq = num1 == num2
+    lemma = z3.Implies(args_eq, z3.And(concl))
+    rew = []
+    if num1.eq(num2) or dom.quick_unsat(list(hyps) + [z3.Not(args_eq)], timeout_ms=2500):
+        rew = [(tb, ta) for (tb, ta) in pairs if not z3.is_rational_value(tb)]
+    return lemma, rew
 
 
 # ---------------------------------------------------------------------------------
@@ -217,11 +453,20 @@ def discharge(dom, name, hyps, goal, timeout_ms=10000, use_cvc5=True, kind="unbo
     g = to_formula(goal)
     hyps = [to_formula(h) for h in hyps]
     lem = []
+    backend = "z3"
     if dom.defs:
-        lem = congruence_lemmas(dom, hyps, [g] + hyps)
+        lem, rewrites = congruence_lemmas(dom, hyps, [g])
+        if rewrites:
+            # apply the proved equalities as rewrites (chains: repeat until stable)
+            for _ in range(4):
+                g2 = z3.substitute(g, *rewrites)
+                if g2.eq(g):
+                    break
+                g = g2
+            if z3.is_true(z3.simplify(g)):
+                return Result(name, "proved", time.time() - t0, "z3+congruence-rewriting", kind=kind)
     formulas = hyps + lem + [z3.Not(g)]
     r, m = dom.check(formulas, timeout_ms=timeout_ms)
-    backend = "z3"
     if r == "unknown" and use_cvc5:
         r2 = cvc5_check(formulas, timeout_ms)
         if r2 == "unsat":
